@@ -178,10 +178,10 @@ func main() {
 		[]string{
 			"the supported set is {2024-11-05, 2025-03-26} (library constants); the latest is 2025-03-26",
 			"for non-string protocolVersion / non-object params any error answer is conforming; only a success with an unsupported version is refuted",
-			"'touching the network' = an HTTP request received, a TCP connection attempt turned away by the scripted server while down, a process spawned (seen in /proc), or a line received on the child's stdin",
-			"'server down' is a listener that resets every new connection and cuts the open ones (a closed port cannot be re-bound safely on a shared machine); stdio: the child exits at start or at the initialize request",
+			"'touching the network' = an HTTP request received by the scripted server (also while it is down), a process spawned (seen in /proc), or a line received on the child's stdin; a TCP connection that never carries a request (net/http dials spare connections in the background) is not traffic of any step",
+			"'server down' cuts the open connections and resets every connection as soon as its request has been read and recorded, without answering (a closed port cannot be re-bound safely on a shared machine, and a refused connection could not be attributed to a request); stdio: the child exits at start or at the initialize request",
 			"an Initialize answered with text that is not JSON can only end by cancellation on the legacy SSE and stdio clients; the recorder cancels it after 250 ms (the expected outcome, an error, does not depend on that bound)",
-			"the Streamable client's background listening-stream GET after a successful handshake is attributed to the Initialize step (the recorder waits until the server has seen it); three quarters of the Streamable histories disable it",
+			"the Streamable client's background listening-stream GET after a successful handshake is attributed to that handshake (the recorder waits until the server has seen it; should it arrive later it is still not charged to the later step); three quarters of the Streamable histories disable it",
 			"operations after a successful handshake are not required to succeed (counted only); refusing them as not-initialized is refuted",
 			"interleavings of the concurrent-registration scenario are sampled, not enumerated",
 		})
